@@ -24,6 +24,7 @@ type Ev struct {
 	Err      string `json:"err,omitempty"`
 	Key      string `json:"key,omitempty"`
 	N        int    `json:"n,omitempty"`
+	D        int64  `json:"d,omitempty"` // a duration (ns), e.g. a call's timeout
 	Ref      int    `json:"ref,omitempty"`
 	Who      string `json:"who,omitempty"` // handler | eventer
 	Stage    int    `json:"stage,omitempty"`
